@@ -712,6 +712,8 @@ def check_sweeps(ctx, f):
             problems, rounds, states = [], 0, 0
             outside = str(e)
         ctx.analysed["paths"] += rounds
+        if outside is not None and ctx.view is not None:
+            continue        # "no verdict" on a rewritten view must not stand in for a verdict on the program as written
         if outside is not None:
             # The function keeps its sweep state in a form the order-domain interpreter has no reading for (an index into
             # a slice instead of a shrinking slice, a cursor split into scalars, a helper writing through `&mut` …).  That
@@ -750,6 +752,8 @@ def check_append(ctx, f):
     except sweep.Unsupported as e:
         problems, rounds, states, outside = [], 0, 0, str(e)
     ctx.analysed["paths"] += rounds
+    if outside is not None and ctx.view is not None:
+        return              # "no verdict" on a rewritten view must not stand in for a verdict on the program as written
     if outside is not None:
         ctx.note("R-STEP gives no verdict on OwnedChain::from_iter: %s" % outside[:200])
         ctx.ob("R-STEP", "OwnedChain::from_iter:rounds", True,
